@@ -530,30 +530,37 @@ fn write_tilemap_cel_to_image(
     // pixels
     let blend_fn = blend_mode_to_blend_fn(*blend_mode);
 
-    for tile_y in 0..tilemap_height {
-        for tile_x in 0..tilemap_width {
+    // Only tiles, and within a tile only the rows and columns, that intersect
+    // the canvas are visited: the work is bounded by the canvas size however
+    // large the stored map or its tiles are.
+    let image_width = image.width() as i64;
+    let image_height = image.height() as i64;
+    // Range of indices `i` in `0..count` whose span `origin + i * size ..
+    // origin + (i + 1) * size` intersects `0..limit`.
+    let visible = |origin: i64, size: i64, count: i64, limit: i64| -> std::ops::Range<i64> {
+        let first = (-origin).div_euclid(size).max(0);
+        let end = (limit - origin + size - 1).div_euclid(size).min(count);
+        first..end.max(first)
+    };
+    for tile_y in visible(cel_y, tile_height, tilemap_height, image_height) {
+        let tile_top = tile_y * tile_height + cel_y;
+        for tile_x in visible(cel_x, tile_width, tilemap_width, image_width) {
+            let tile_left = tile_x * tile_width + cel_x;
             // TODO: support tile transform flags
             let tile = tilemap_data
                 .tile(tile_x as u16, tile_y as u16)
                 .expect("Invalid tile index");
             let tile_id = &tile.id;
             let tile_pixels = tile_slice(pixels, &tile_size, tile_id);
-            for pixel_y in 0..tile_height {
-                for pixel_x in 0..tile_width {
+            for pixel_y in visible(tile_top, 1, tile_height, image_height) {
+                for pixel_x in visible(tile_left, 1, tile_width, image_width) {
                     let pixel_idx = ((pixel_y * tile_width) + pixel_x) as usize;
                     let image_pixel = tile_pixels[pixel_idx];
-                    let image_x = (tile_x * tile_width) + pixel_x + cel_x;
-                    let image_y = (tile_y * tile_height) + pixel_y + cel_y;
-                    // Skip pixels off of the canvas.
-                    let x_in_bounds = (0..(image.width() as i64)).contains(&image_x);
-                    let y_in_bounds = (0..(image.height() as i64)).contains(&image_y);
-                    if x_in_bounds && y_in_bounds {
-                        let image_x = image_x as u32;
-                        let image_y = image_y as u32;
-                        let src = *image.get_pixel(image_x, image_y);
-                        let new = blend_fn(src, image_pixel, opacity);
-                        image.put_pixel(image_x, image_y, new);
-                    }
+                    let image_x = (tile_left + pixel_x) as u32;
+                    let image_y = (tile_top + pixel_y) as u32;
+                    let src = *image.get_pixel(image_x, image_y);
+                    let new = blend_fn(src, image_pixel, opacity);
+                    image.put_pixel(image_x, image_y, new);
                 }
             }
         }
